@@ -9,6 +9,7 @@ mod bufrun;
 mod hist;
 mod histrun;
 mod oalloc;
+mod recycle;
 mod tbl;
 mod tbl15;
 mod util;
@@ -21,6 +22,7 @@ fn main() {
     let code = match args.pos.first().map(|s| s.as_str()) {
         Some("hist") => histrun::main_hist(&args),
         Some("tbl") => tbl::main_tbl(&args),
+        Some("recycle") => recycle::main_recycle(&args),
         Some("buf") => bufrun::main_buf(&args),
         Some("bufmut") => bufmut::main_bufmut(&args),
         _ => {
